@@ -16,6 +16,9 @@ sibling x_r=<H32> x_to=<slot> x_root=<H32> <FLAT STATE>   the retained pair `x_r
                         continuation than the live chain); answered like `recheck` for the new state
 sibblock x_r=<H32> x_slot=<slot> x_fork=<name> x_ssz=<hex> x_root=<H32> <FLAT STATE>   the retained pair is fed a block
                         of an independent sibling chain (different blocks than the live chain); answered like `sibling`
+clone x_r=<H32>         the retained pair is split: a second pair (copy of its state, clone of its context) is kept
+xdeposit x_r=<H32> x_pk=<H48> x_wc=<H32> x_amount=<N> x_root=<H32> <FLAT STATE>   `phase0.ProcessDeposit(…, ignore=true)` of a
+                        new validator applied to the retained pair (deposit-tree scenario); answered like `sibling`
 reload x_pre=<H32>      from here on a second pair (state reloaded from SSZ bytes, fresh context) runs along
 endreload
 ```
@@ -38,8 +41,9 @@ structure DState where
   prev : Option State := none
   /-- the code-shaped model's live context (`rotate` / `afterDeposit` / `afterUpgrade` applied line by line) -/
   live : Option Ctx := none
-  /-- retained pairs: (state root, state) of older states whose cloned contexts the Go side keeps -/
-  kept : List (String × State) := []
+  /-- retained pairs: (state root, state, rendered `ctxOf` answer — computed once when the pair is created or moved) of
+  older states whose cloned contexts the Go side keeps -/
+  kept : List (String × State × String) := []
 
 def render (root : String) (shadow : Bool) (hyps : String) (c : SM Ctx) : String :=
   let head := s!"ok root={root} fresh=same reload={if shadow then "same" else "none"} hyps={hyps} "
@@ -108,27 +112,39 @@ def step (d : DState) (line : String) : DState × String :=
       let (kv, extra) := parseKV rest
       match d.prev, d.root with
       | some prev, some root =>
-        if !extra.isEmpty || kv.get? "x_pre" ≠ some root then bad else ({ d with kept := d.kept ++ [(root, prev)] }, "ok")
+        if !extra.isEmpty || kv.get? "x_pre" ≠ some root then bad else
+        match d.cfg with
+        | some cfg => ({ d with kept := d.kept ++ [(root, prev, renderKept root (ctxOf cfg prev))] }, "ok")
+        | none => bad
       | _, _ => bad
     else if op = "recheck" then
       let (kv, extra) := parseKV rest
       match d.cfg, kv.get? "x_r" with
       | some cfg, some r =>
         match d.kept.find? (·.1 = r) with
-        | some (_, st) => if !extra.isEmpty then bad else (d, renderKept r (ctxOf cfg st))
+        | some (_, _, ans) => if !extra.isEmpty || cfg.SLOTS_PER_EPOCH = 0 then bad else (d, ans)
         | none => bad
       | _, _ => bad
-    else if op = "sibling" || op = "sibblock" then
+    else if op = "clone" then
+      let (kv, extra) := parseKV rest
+      match d.cfg, kv.get? "x_r" with
+      | some _, some r =>
+        match d.kept.find? (·.1 = r) with
+        | some e => if !extra.isEmpty then bad else ({ d with kept := d.kept ++ [e] }, "ok")
+        | none => bad
+      | _, _ => bad
+    else if op = "sibling" || op = "sibblock" || op = "xdeposit" then
       let (kv, extra) := parseKV rest
       match d.cfg, kv.get? "x_r", kv.get? "x_root", parseState kv,
-          (kv.get? (if op = "sibling" then "x_to" else "x_slot")).bind String.toNat? with
+          (kv.get? (if op = "sibling" then "x_to" else if op = "sibblock" then "x_slot" else "x_amount")).bind String.toNat? with
       | some cfg, some r, some root, .ok st, some _ =>
         if !extra.isEmpty || !(d.kept.any (·.1 = r)) then bad else
         -- the first retained pair with that root moves on to the line's state
-        let rec upd : List (String × State) → List (String × State)
+        let ans := renderKept root (ctxOf cfg st)
+        let rec upd : List (String × State × String) → List (String × State × String)
           | [] => []
-          | (k, s0) :: t => if k = r then (root, st) :: t else (k, s0) :: upd t
-        ({ d with kept := upd d.kept }, renderKept root (ctxOf cfg st))
+          | (k, s0, a0) :: t => if k = r then (root, st, ans) :: t else (k, s0, a0) :: upd t
+        ({ d with kept := upd d.kept }, ans)
       | _, _, _, _, _ => bad
     else if op = "genesisfail" then (d, "ok")   -- as `genfail`, for a chain whose genesis could not be built
     else if op = "genfail" then
